@@ -1,6 +1,7 @@
 //! C06 — parsing any text returns a tree or a parse error, never a panic.
 
 use crate::core::*;
+use crate::core::QUIET_ALL;
 use crate::gen::{self, Dec};
 use crate::model::lex::{self, Tok};
 use crate::model::parse::{parse_expr, PErr};
@@ -306,6 +307,85 @@ fn crlf_error_text(d: &mut Dec) -> String {
     t
 }
 
+/// comment lines indented before and after the `//` marker with ASCII and multi-byte white space, then an expression
+fn comment_block_text(d: &mut Dec) -> String {
+    let nlines = 1 + d.below(6);
+    let mut t = String::new();
+    for i in 0..nlines {
+        t.push_str(*d.pick(&["", "", " ", "\t", "\u{a0}", "   "]));
+        t.push_str("//");
+        t.push_str(*d.pick(&["", " ", "  ", "\t", "\u{a0}", "\u{3000}", "\u{2003} ", " \u{2028}", "\u{85}", "\u{a0}\u{a0} ", " \u{3000}", "/"]));
+        t.push_str(*d.pick(&["line", "", "é", "@name: \"x\";", "😀 tail  "]));
+        t.push_str(&i.to_string());
+        t.push_str(*d.pick(&["\n", "\n", "\r\n", "\r"]));
+    }
+    t.push_str(*d.pick(&["a + b", "i1", "@k: i1; a", "a +", "\"s\"", ""]));
+    t
+}
+
+// ---- parsing while the thread is exiting ------------------------------------------------------------------------
+
+struct ExitParser {
+    tx: std::cell::RefCell<Option<std::sync::mpsc::Sender<(String, &'static str)>>>,
+}
+
+const EXIT_TEXTS: [&str; 8] = ["a + b", "i1", "a +", "// n\na", "\"x\\q\"", "@k: i1; a", "i999999999999999999999999999999999999999999", ""];
+
+impl Drop for ExitParser {
+    fn drop(&mut self) {
+        if let Some(tx) = self.tx.borrow_mut().take() {
+            for text in EXIT_TEXTS {
+                if std::panic::catch_unwind(|| std::mem::forget(Expr::parse(text))).is_err() {
+                    let _ = tx.send((text.to_string(), "Expr::parse"));
+                }
+                if std::panic::catch_unwind(|| std::mem::forget(Rule::parse(text))).is_err() {
+                    let _ = tx.send((text.to_string(), "Rule::parse"));
+                }
+            }
+        }
+    }
+}
+
+thread_local! {
+    static EXIT_PARSER: ExitParser = const { ExitParser { tx: std::cell::RefCell::new(None) } };
+}
+
+/// A thread whose thread-local destructor parses while the thread exits (the last parses of a thread's life).
+/// `parsed_before`: the thread parsed something earlier; `guard_first`: the destructor was registered before that parse.
+fn check_parse_at_thread_exit(parsed_before: bool, guard_first: bool) -> Verdict {
+    let (tx, rx) = std::sync::mpsc::channel();
+    QUIET_ALL.fetch_add(1, std::sync::atomic::Ordering::SeqCst);
+    let joined = std::thread::spawn(move || {
+        if guard_first {
+            EXIT_PARSER.with(|e| *e.tx.borrow_mut() = Some(tx.clone()));
+        }
+        if parsed_before {
+            let _ = Expr::parse("a + i1");
+            let _ = Rule::parse("// n\na");
+        }
+        if !guard_first {
+            EXIT_PARSER.with(|e| *e.tx.borrow_mut() = Some(tx.clone()));
+        }
+    })
+    .join();
+    QUIET_ALL.fetch_sub(1, std::sync::atomic::Ordering::SeqCst);
+    let panicked: Vec<(String, &'static str)> = rx.try_iter().collect();
+    if joined.is_err() {
+        return Err(Issue::new("parse:panic:at-thread-exit", "the exiting thread panicked outside the boundary"));
+    }
+    match panicked.first() {
+        None => Ok(()),
+        Some((text, which)) => Err(Issue::new(
+            "parse:panic:at-thread-exit",
+            format!(
+                "{which} panicked on {text:?} ({} of {} parses panicked) when called from a thread-local destructor while the thread exits (thread parsed before: {parsed_before}, destructor registered first: {guard_first})",
+                panicked.len(),
+                EXIT_TEXTS.len() * 2
+            ),
+        )),
+    }
+}
+
 fn rule_wrap(d: &mut Dec, text: String) -> String {
     match d.below(6) {
         0 => format!("// name\n{text}"),
@@ -319,7 +399,8 @@ fn rule_wrap(d: &mut Dec, text: String) -> String {
 
 pub fn random_text(bytes: &[u8]) -> (String, &'static str, bool) {
     let mut d = Dec::new(bytes);
-    let (t, class, nt) = match d.below(11) {
+    let (t, class, nt) = match d.below(12) {
+        11 => (comment_block_text(&mut d), "comment-block", true),
         8 => (long_token_text(&mut d), "long-token", true),
         9 => (metadata_value_text(&mut d), "metadata-value", true),
         10 => (crlf_error_text(&mut d), "crlf-error", true),
@@ -352,12 +433,28 @@ pub fn run(ctx: &Ctx) {
          position: i, 0x, 0o, 0b, d (with/without point, > 28 fraction digits), f with huge exponents / 400 fraction digits, list \
          indices; (d) every escape form: \\c for all ASCII c, \\u{..} with 0-10 hex digits, surrogates, > 0x10FFFF, unterminated, \
          trailing backslash, backslash-newline; (e) strings of arbitrary Unicode scalars incl. control characters; (f) the above \
-         wrapped as rule texts. Oracle: Ok or Err, never a panic; a literal the reference conversion routines classify as denoting no \
+         wrapped as rule texts; (g) blocks of comment lines indented before / after the marker with ASCII and multi-byte white space; (h) parses issued from a thread-local destructor while the thread exits. Oracle: Ok or Err, never a panic; a literal the reference conversion routines classify as denoting no \
          value must be rejected. Non-trivial: the text contains an out-of-range numeral, an escape, a non-ASCII/control character or \
          was mutated from a valid text.",
     );
 
-    super::regressions::run(ctx, "C06", |j| j.get("text").and_then(|t| t.as_str()).map(check_text));
+    super::regressions::run(ctx, "C06", replay);
+
+    // the very last parses of a thread's life: from a thread-local destructor, with and without earlier parses on that thread
+    ctx.enumerate(
+        "parse-at-thread-exit",
+        4 * 8,
+        true,
+        |i, acc| {
+            acc.cell("thread-exit", true);
+            if i < 4 {
+                acc.sample("thread-exit", || format!("parsed before: {}, destructor registered first: {}", i & 1 == 1, i & 2 == 2));
+            }
+            check_parse_at_thread_exit(i & 1 == 1, i & 2 == 2)
+        },
+        |i| json!({"thread_exit": [i & 1 == 1, i & 2 == 2]}),
+        "thread-exit",
+    );
 
     let alpha = full_alphabet();
     let n = alpha.len() as u64;
@@ -460,5 +557,8 @@ pub fn run(ctx: &Ctx) {
 }
 
 pub fn replay(j: &serde_json::Value) -> Option<Verdict> {
+    if let Some(a) = j.get("thread_exit").and_then(|a| a.as_array()) {
+        return Some(check_parse_at_thread_exit(a.first()?.as_bool()?, a.get(1)?.as_bool()?));
+    }
     j.get("text").and_then(|t| t.as_str()).map(check_text)
 }
